@@ -91,10 +91,18 @@ Definition onS (st : store) (r : nat) (f : seq -> step seq) : store * pv :=
   end.
 Definition obs (st : store) (r : result pv) : store * pv := (st, pv_of_result (fun x => x) r).
 
+Definition is_user_fn (f : fn) : bool := match f with Fua | Fub | Fuc => true | _ => false end.
+Definition pv_of_call (k : block) : pv :=
+  PTuple [PStr (fn_name (bfn k)); PList (map pv_of_val (bargs k)); PNum (bsr k); PInt (bn k)].
+(* _subelementBuilder(bp, bp.SR, bp.durations) plus the log of user-function calls it made *)
 Definition pv_forged_bp (b : bp) : result pv :=
   do f <- forge_bp b;
   match sr b with
-  | VNum s => Ok (pv_of_chout (OForged f None true s) (WBlocks (fblocks f)))
+  | VNum s =>
+      match pv_of_chout (OForged f None true s) (WBlocks (fblocks f)) with
+      | PDict d => Ok (PDict (d ++ [(pstr "calls", PList (map pv_of_call (filter (fun k => is_user_fn (bfn k)) (fblocks f))))]))
+      | x => Ok x
+      end
   | _ => Err EType
   end.
 
